@@ -146,6 +146,11 @@ func (el *eventloop) read(c *conn) error {
 
 func (el *eventloop) cread(c *conn) error {
 	for {
+		if c.closeAfterFlush {
+			// the client has sent QUIT: nothing after it is served
+			c.resetBuffer()
+			return nil
+		}
 		r, err := c.cread()
 		if err == codec.ErrInvalidResp {
 			logging.Warnf("[%dc] client closed because of invalid resp", c.Fd())
@@ -161,9 +166,22 @@ func (el *eventloop) cread(c *conn) error {
 			// Encode data and try to write it back to the peer, this attempt is based on a fact:
 			// the peer socket waits for the response data after sending request data to the server,
 			// which makes the peer socket writable.
-			MsgPool.Put(r)
-			if _, err = c.write(out); err != nil {
-				return err
+			if c.inMsgQueue.Empty() {
+				MsgPool.Put(r)
+				if _, err = c.write(out); err != nil {
+					return err
+				}
+			} else {
+				// Earlier requests are still waiting for their redis replies: queue this reply behind
+				// them, it is sent by flush in request order.
+				r.RspBody = append(r.RspBody[:0], out...)
+				r.Done = true
+				c.EnqueueInMsg(r)
+			}
+			if action == Close && c.opened && (!c.inMsgQueue.Empty() || !c.outboundBuffer.IsEmpty()) {
+				// close once the earlier replies and this one have been sent
+				c.closeAfterFlush = true
+				action = None
 			}
 		}
 		switch action {
@@ -294,6 +312,10 @@ func (el *eventloop) flush(c *conn) {
 	for i := 0; i < n; i++ {
 		MsgPool.Put(c.dequeueInMsg())
 	}
+
+	if c.closeAfterFlush && c.inMsgQueue.Empty() && c.outboundBuffer.IsEmpty() {
+		_ = el.closeConn(c, nil, ProxyEof)
+	}
 }
 
 func (el *eventloop) write(c *conn) error {
@@ -323,6 +345,9 @@ func (el *eventloop) write(c *conn) error {
 	// remove the writable event from poller to help the future event-loops.
 	if c.outboundBuffer.IsEmpty() {
 		_ = el.poller.ModRead(c.pollAttachment)
+		if c.closeAfterFlush && c.inMsgQueue.Empty() {
+			return el.closeConn(c, nil, ProxyEof)
+		}
 	}
 
 	return nil
